@@ -684,12 +684,26 @@ fn test_components() {
 }
 
 /// 散列化「无序不重复词项容器」
-/// * ⚠️潜在假设：集合相同⇒遍历顺序相同⇒散列化顺序相同⇒散列化结果相同
+/// * 🚩集合的遍历顺序取决于各实例的随机散列种子，故不能按遍历顺序逐个散列化
+///   * 📌否则「相等的集合」会得到不同的散列值，嵌套集合的判等亦随之失效
 fn hash_term_set<H: std::hash::Hasher>(set: &TermSetType, state: &mut H) {
-    // 逐个元素散列化
-    for term in set {
-        term.hash(state)
+    hash_terms_unordered(set.iter(), state)
+}
+
+/// 以「与顺序无关」的方式散列化一系列词项
+/// * 🚩各元素先用固定种子的散列器独立散列化，再以（可交换的）环绕加法合并
+fn hash_terms_unordered<'a, H: std::hash::Hasher>(
+    terms: impl Iterator<Item = &'a Term>,
+    state: &mut H,
+) {
+    use std::hash::Hasher;
+    let mut sum: u64 = 0;
+    for term in terms {
+        let mut hasher = std::collections::hash_map::DefaultHasher::new();
+        term.hash(&mut hasher);
+        sum = sum.wrapping_add(hasher.finish());
     }
+    state.write_u64(sum);
 }
 
 /// 实现/散列化逻辑
@@ -747,15 +761,16 @@ impl Hash for Term {
             }
             ConjunctionParallel(set) => hash_term_set(set, state),
             // 陈述
+            // 对称陈述：判等时两端可交换，故散列化亦须与两端顺序无关
+            Similarity(t1, t2) | Equivalence(t1, t2) | EquivalenceConcurrent(t1, t2) => {
+                hash_terms_unordered([t1.as_ref(), t2.as_ref()].into_iter(), state)
+            }
             Inheritance(t1, t2)
-            | Similarity(t1, t2)
             | Implication(t1, t2)
-            | Equivalence(t1, t2)
             | ImplicationPredictive(t1, t2)
             | ImplicationConcurrent(t1, t2)
             | ImplicationRetrospective(t1, t2)
-            | EquivalencePredictive(t1, t2)
-            | EquivalenceConcurrent(t1, t2) => {
+            | EquivalencePredictive(t1, t2) => {
                 t1.hash(state);
                 t2.hash(state);
             }
